@@ -22,14 +22,14 @@ import (
 // (Serve -> dispatchConnection -> panel), proxy upstreams, passive tap.
 
 type FullScenario struct {
-	Client   ClientParams `json:"client"`
-	UIDKind  int          `json:"uid_kind"` // 0 random, 1 zeros, 2 0xff, 3 limited user from the database
-	Streams  []C16Stream  `json:"streams"`
-	CloseStreams bool     `json:"close_streams"`
-	CloseSession int      `json:"close_session"` // 0 no, 1 client closes, 2 server side closes
-	UDPBook  bool         `json:"udp_book"`       // the proxy method is a udp entry of the ProxyBook
-	Partial  bool         `json:"partial"`
-	Seed     uint64       `json:"seed"`
+	Client       ClientParams `json:"client"`
+	UIDKind      int          `json:"uid_kind"` // 0 random, 1 zeros, 2 0xff, 3 limited user from the database
+	Streams      []C16Stream  `json:"streams"`
+	CloseStreams bool         `json:"close_streams"`
+	CloseSession int          `json:"close_session"` // 0 no, 1 client closes, 2 server side closes
+	UDPBook      bool         `json:"udp_book"`      // the proxy method is a udp entry of the ProxyBook
+	Partial      bool         `json:"partial"`
+	Seed         uint64       `json:"seed"`
 	// OutageDials: the server (or the CDN edge) refuses that many connection
 	// attempts before it is reachable; the client retries every 3 s, so the
 	// outage lasts longer than the 180 s the server tolerates between a
